@@ -426,3 +426,67 @@ theorem runLoop_frameX (X : Scope) (hX : NoRefs X) (prog : List Stmt) (hprog : a
              | fuel => rfl)
 #print axioms runLoop_frameX
 end Pakhi
+
+namespace Pakhi
+/-- the frame theorem for collection-free runs: the leftover bindings may hold anything, containers included -/
+theorem runLoop_frameX_never (X : Scope) (prog : List Stmt) (hprog : avL (keysOf X) prog) :
+    ∀ (f k : Nat) (cur : List Stmt) (s : St), Dom (keysOf X) s → avL (keysOf X) cur →
+      runLoop prog .never f k cur (TX X s) = (runLoop prog .never f k cur s).rn (TX X)
+  | 0, _, _, _, _, _ => rfl
+  | f+1, k, cur, s, hd, hav => by
+      have hex := (fxInv X prog hprog f).exec cur s hd hav
+      have hdx := (domInv (keysOf X) prog hprog f).exec cur s hd hav
+      cases cur with
+      | nil => rfl
+      | cons st rest =>
+        cases st <;> first
+          | rfl
+          | (simp only [runLoop]
+             rw [hex]
+             cases hr : exec prog f _ s with
+             | ok x =>
+               obtain ⟨cur', s1⟩ := x
+               rw [hr] at hdx
+               obtain ⟨hd1, hav1⟩ := hdx
+               simp only [Res.rn_ok, tV, GcMode.fires, Bool.false_eq_true, if_false]
+               exact runLoop_frameX_never X prog hprog f (k+1) cur' s1 hd1 hav1
+             | err e => rfl
+             | panic p => rfl
+             | fuel => rfl)
+
+section
+variable (K K' : List Str) (hsub : ∀ n, n ∈ K' → n ∈ K)
+include hsub
+
+mutual
+theorem avE_mono : ∀ (e : Expr), avE K e → avE K' e
+  | .indexing e i m, h => by simp only [avE] at h ⊢; exact ⟨avE_mono e h.1, avE_mono i h.2⟩
+  | .or l r m, h => by simp only [avE] at h ⊢; exact ⟨avE_mono l h.1, avE_mono r h.2⟩
+  | .and l r m, h => by simp only [avE] at h ⊢; exact ⟨avE_mono l h.1, avE_mono r h.2⟩
+  | .equality op l r m, h => by simp only [avE] at h ⊢; exact ⟨avE_mono l h.1, avE_mono r h.2⟩
+  | .comparison op l r m, h => by simp only [avE] at h ⊢; exact ⟨avE_mono l h.1, avE_mono r h.2⟩
+  | .addsub op l r m, h => by simp only [avE] at h ⊢; exact ⟨avE_mono l h.1, avE_mono r h.2⟩
+  | .muldiv op l r m, h => by simp only [avE] at h ⊢; exact ⟨avE_mono l h.1, avE_mono r h.2⟩
+  | .unary op r m, h => by simp only [avE] at h ⊢; exact avE_mono r h
+  | .call f args m, h => by simp only [avE] at h ⊢; exact ⟨avE_mono f h.1, avEs_mono args h.2⟩
+  | .nil m, _ => by simp only [avE]
+  | .bool b m, _ => by simp only [avE]
+  | .num b m, _ => by simp only [avE]
+  | .str s m, _ => by simp only [avE]
+  | .list es m, h => by simp only [avE] at h ⊢; exact avEs_mono es h
+  | .record ks vs m, h => by simp only [avE] at h ⊢; exact ⟨avEs_mono ks h.1, avEs_mono vs h.2⟩
+  | .var tok m, h => by simp only [avE] at h ⊢; exact fun hm => h (hsub _ hm)
+  | .group e m, h => by simp only [avE] at h ⊢; exact avE_mono e h
+theorem avEs_mono : ∀ (es : Exprs), avEs K es → avEs K' es
+  | .nil, _ => by simp only [avEs]
+  | .cons e es, h => by simp only [avEs] at h ⊢; exact ⟨avE_mono e h.1, avEs_mono es h.2⟩
+end
+
+theorem avS_mono (st : Stmt) (h : avS K st) : avS K' st := by
+  cases st <;> simp only [avS] at h ⊢ <;> try exact avE_mono K K' hsub _ h
+  rename_i a m
+  exact ⟨fun hm => h.1 (hsub _ hm), fun e he => avE_mono K K' hsub e (h.2.1 e he), fun e he => avE_mono K K' hsub e (h.2.2 e he)⟩
+
+theorem avL_mono (l : List Stmt) (h : avL K l) : avL K' l := fun st hst => avS_mono K K' hsub st (h st hst)
+end
+end Pakhi
